@@ -1,0 +1,53 @@
+// Copyright Suneido Software Corp. All rights reserved.
+// Governed by the MIT license found in the LICENSE file.
+
+//go:build verif
+
+package query
+
+import (
+	"math/rand/v2"
+)
+
+// Hooks for the external property checks in /verif (build tag verif).
+// They only expose the existing unexported test switches and read-only
+// views of unexported data; they add no behaviour.
+
+// VerifImpossible is the cost that Optimize returns for "no strategy".
+const VerifImpossible = impossible
+
+// VerifSwitches are the existing unexported test switches
+// (see fuzz_test.go fuzzRunner.Run for how the package's own tests use them).
+type VerifSwitches struct {
+	RandomBest  *rand.Rand // best.go randomBest
+	TicostAdj   int        // query.go ticostAdj
+	JoinRev     int        // join.go joinRev
+	SortForTest bool       // summarize.go sortForTest
+}
+
+// VerifSetSwitches sets the test switches and returns the previous values.
+func VerifSetSwitches(s VerifSwitches) VerifSwitches {
+	old := VerifSwitches{RandomBest: randomBest, TicostAdj: ticostAdj,
+		JoinRev: joinRev, SortForTest: sortForTest}
+	randomBest = s.RandomBest
+	ticostAdj = s.TicostAdj
+	joinRev = s.JoinRev
+	sortForTest = s.SortForTest
+	return old
+}
+
+// VerifFix is an exported copy of one Fixed entry (values are packed).
+type VerifFix struct {
+	Col    string
+	Values []string
+}
+
+// VerifFixed returns a copy of q.Fixed().
+func VerifFixed(q Query) []VerifFix {
+	fixed := q.Fixed()
+	result := make([]VerifFix, len(fixed))
+	for i, f := range fixed {
+		result[i] = VerifFix{Col: f.col, Values: append([]string(nil), f.values...)}
+	}
+	return result
+}
